@@ -166,7 +166,8 @@ class BandwidthLimitedStream:
         # reads. However given the read's on this abstraction are at most 256KB
         # (via downloads), it reduces the burstiness to be small KB bursts at
         # worst.
-        while not self._transfer_coordinator.exception:
+        exception = self._transfer_coordinator.exception
+        while not exception:
             try:
                 self._leaky_bucket.consume(
                     self._bytes_seen, self._request_token
@@ -175,12 +176,12 @@ class BandwidthLimitedStream:
                 return
             except RequestExceededException as e:
                 self._time_utils.sleep(e.retry_time)
-        else:
-            # The transfer failed while this read may still be waiting for its
-            # turn: give its scheduled wait back so it does not slow down the
-            # remaining transfers.
-            self._leaky_bucket.unschedule(self._request_token)
-            raise self._transfer_coordinator.exception
+            exception = self._transfer_coordinator.exception
+        # The transfer failed while this read may still be waiting for its
+        # turn: give its scheduled wait back so it does not slow down the
+        # remaining transfers.
+        self._leaky_bucket.unschedule(self._request_token)
+        raise exception
 
     def signal_transferring(self):
         """Signal that data being read is being transferred to S3"""
